@@ -18,7 +18,7 @@ func c10NumCases(env *core.Env) int {
 	if env.Thorough() {
 		return 15000
 	}
-	return 700
+	return 3000
 }
 
 // decoyRoot is the same document with every marker changed.
